@@ -147,10 +147,13 @@ fn gen_state(rng: &mut Rng, w: u16, k: u64) -> GenState {
         let vect = w & 0xFF;
         match vect {
             0x20 | 0x23 => {
-                if !rng.chance(1, 6) {
+                if k < 16 {
+                    input.push((((w >> 8) & 0xF) << 4) as u8 | k as u8);
+                } else if !rng.chance(1, 6) {
                     input.push(match rng.below(5) {
                         0 => 0x80 + rng.below(0x80) as u8,
-                        1 => *rng.pick(&[0u8, 0x0A, 0x1B, 0x7F]),
+                        1 => rng.below(0x21) as u8,
+                        2 => *rng.pick(&[0u8, 0x0A, 0x0D, 0x1B, 0x7F]),
                         _ => 0x20 + rng.below(0x5F) as u8,
                     });
                 }
@@ -310,6 +313,7 @@ pub fn run(cfg: &Cfg, col: &mut Collector) {
         }),
     ));
     col.extra.push(("states_per_word_per_flag".into(), J::I(p.k as i64)));
+    col.extra.push(("input_bytes".into(), J::s("GETC and IN: every byte value 0..=255 under each flag (16 words x 16 states per vector), then random ones")));
 }
 
 fn merge(into: &mut Collector, from: Collector) {
@@ -377,7 +381,11 @@ fn run_shard(shard: &Shard, p: &Params, seed: u64, only: Option<u64>) -> Collect
     }
     let mut since_full = 0u64;
     for &w in &shard.words {
-        for k in 0..p.k {
+        // GETC / IN: the sixteen words of each vector (bits 11..8 are ignored by TRAP) x sixteen
+        // states sweep all 256 values of the input byte
+        let reads_input = w >> 12 == 0xF && matches!(w & 0xFF, 0x20 | 0x23);
+        let k_n = if reads_input && !cfg!(miri) { p.k.max(20) } else { p.k };
+        for k in 0..k_n {
             let id = case_id(w, k, shard.stack_on);
             if let Some(o) = only {
                 if o != id {
